@@ -279,7 +279,11 @@ func (b *basicCommonValidator) Validate(data interface{}) (res *Result) {
 
 	for _, enumValue := range b.Enum {
 		actualType := reflect.TypeOf(enumValue)
-		if actualType == nil { // Safeguard
+		if actualType == nil { // a null in the enum: matches the null instance only
+			if data == nil {
+				return nil
+			}
+
 			continue
 		}
 
